@@ -15,6 +15,11 @@ fn items(thorough: bool) -> Vec<String> {
         v.push(format!("thread{{ {a} }}"));
     }
     v.push("other{ L:z0 }".into());
+    // a panic unwinding out of a no_record block / a nested load, caught inside the same load
+    v.push("try{ norec{ X:b } }".into());
+    v.push("try{ X:b }".into());
+    v.push("try{ norec{ L:l1 X:b } }".into());
+    v.push("try{ thread{ X:b } }".into());
     v.push("other{ C:z1 L:z1 }".into());
     for a in ["L:l0", "N:m", "D:d", "S:s0"] {
         v.push(format!("norec{{ thread{{ {a} }} }}"));
